@@ -219,6 +219,12 @@ def check_case(ctx, recipe, tags=()):
     except Exception as e:  # an operand that cannot be built is a generator problem, not a case
         ctx.count("skipped-unbuildable:" + type(e).__name__)
         return None
+    for i, t in enumerate(tables):
+        if tuple(t.shape) != (len(t.ids(axis="observation")), len(t.ids())):
+            # Table(np.zeros((0, 1)), [], ['x']) keeps a 0x0 matrix next to one ID (constructor short-cut for
+            # empty dense input): not a table of the C01 domain; the same content goes in through scipy instead
+            tables[i] = build_operand(dict(recipe["ops"][i], route="csr", hist="none"), axis)
+            ctx.count("degenerate-dense-rebuilt-as-csr")
     tobs = [slim(core.table_obs(t)) for t in tables]
     res, r = run_real(tables, axis, recipe["mode"], recipe["entry"], recipe.get("default_axis", False))
     req = {"axis": axis, "tables": tobs, "mode": recipe["mode"], "entry": recipe["entry"],
